@@ -9,7 +9,8 @@ THEOREMS = ['Crop.c08_grow_inv', 'Crop.c08_failed_grow_unchanged', 'Crop.c08_fn_
             'Crop.c08_resow_keeps_results', 'Crop.length_eq_iff_all']
 ANCHORS = ['isReady', 'sowerGetsExtra', 'sowerFlush', 'nbFromBs', 'capNb', 'bsOfNb', 'remOfNb', 'bothOk']
 RULE = ("random histories (length <= 12) of {sow, re-sow with the same shape, grow one id, grow a subset, grow_missing, grow "
-        "with a function that raises on chosen settings, delete a result file, corrupt a result + check_bad, reload the Crop, "
+        "with a function that raises on chosen settings, delete a result file, corrupt a result + check_bad, a stranded temporary "
+        "of a killed grower, reload the Crop, "
         "query} on crops of 1..8 batches; after EVERY operation the four progress queries, str(crop) and the directory "
         "listing are compared with the Lean model and with a ghost set of finished batches maintained by the oracle; "
         "non-trivial = at least 2 batches and at least 3 state-changing operations; distinct by full history; thorough adds "
@@ -55,7 +56,8 @@ def gen_history(rng, B=None, ops_len=None):
         elif r < 0.68: ops.append({'op': 'growmissing', 'fail': [list(rng.choice(locs))]})
         elif r < 0.80: ops.append({'op': 'delres', 'id': rng.randint(1, B)})
         elif r < 0.85: ops += [{'op': 'corrupt', 'id': rng.randint(1, B)}, {'op': 'checkbad'}]
-        elif r < 0.90: ops.append({'op': 'checkbad'})
+        elif r < 0.88: ops.append({'op': 'checkbad'})
+        elif r < 0.91: ops.append({'op': 'strandtmp', 'id': rng.randint(1, B)})
         elif r < 0.95: ops.append({'op': 'reload'})
         else: ops.append(dict(sow))           # re-sow, same shape
         ops.append({'op': 'query'})
